@@ -207,6 +207,7 @@ func emitNums(g *gen, n int) {
 type corruption struct {
 	op   string
 	text []byte
+	tag  string // for illegal-first-byte: hex of the byte(s) put in place of the keyword
 }
 
 func splice(text []byte, start, end int, repl string) []byte {
@@ -215,10 +216,48 @@ func splice(text []byte, start, end int, repl string) []byte {
 	return append(out, text[end:]...)
 }
 
+// the first token (keyword) of definition k replaced by a byte the scanner rejects: NUL, 0xFF, a
+// truncated two-byte sequence. The scanner reports it as soon as it READS the byte, which may be
+// while the previous definition still looks one token ahead (known finding
+// C12-lookahead-scanner-error-drops-previous-definition).
+func firstByteCorruptions(f *genFile, k int) []corruption {
+	d := f.defs[k]
+	var out []corruption
+	for _, b := range []string{"\x00", "\xff", "\xc3"} {
+		out = append(out, corruption{op: "illegal-first-byte", text: splice(f.text, d.toks[0].start, d.toks[0].end, b),
+			tag: hex.EncodeToString([]byte(b))})
+	}
+	return out
+}
+
+// kind of the definition before definition k ("none" for k = 0; "message-sg" = a BO_ whose last line
+// is an SG_) and whether the keyword of definition k directly follows the first line end after it
+func prevInfo(f *genFile, k int) (string, int) {
+	if k == 0 {
+		return "none", 0
+	}
+	p := f.defs[k-1]
+	kind := p.kind
+	if kind == "message" {
+		for _, t := range p.toks {
+			if t.text == "SG_" {
+				kind = "message-sg"
+			}
+		}
+	}
+	end := p.toks[len(p.toks)-1].end
+	start := f.defs[k].toks[0].start
+	adj := 0
+	if j := bytes.IndexByte(f.text[end:start], '\n'); j >= 0 && end+j+1 == start {
+		adj = 1
+	}
+	return kind, adj
+}
+
 func corruptions(g *gen, f *genFile, k int) []corruption {
 	d := f.defs[k]
 	if d.kind == "unknown" {
-		return nil
+		return firstByteCorruptions(f, k)
 	}
 	var mand, strs, nums []int
 	for i := 1; i < len(d.toks); i++ {
@@ -237,27 +276,27 @@ func corruptions(g *gen, f *genFile, k int) []corruption {
 	pick := func(xs []int) *tok { return &d.toks[xs[g.r.Intn(len(xs))]] }
 	if len(mand) > 0 {
 		t := pick(mand)
-		out = append(out, corruption{"truncate", append([]byte(nil), f.text[:t.start]...)})
+		out = append(out, corruption{op: "truncate", text: append([]byte(nil), f.text[:t.start]...)})
 		t = pick(mand)
-		out = append(out, corruption{"delete", splice(f.text, t.start, t.end, " ")})
+		out = append(out, corruption{op: "delete", text: splice(f.text, t.start, t.end, " ")})
 		i := mand[g.r.Intn(len(mand))]
 		t = &d.toks[i]
 		ill := "$"
 		if i >= 2 || t.start > d.toks[0].end {
 			ill = []string{"$", "$", "\x00", "\xff", "\xc3", "?", "\xed\xa0\x80"}[g.r.Intn(7)]
 		}
-		out = append(out, corruption{"illegal", splice(f.text, t.start, t.end, ill)})
+		out = append(out, corruption{op: "illegal", text: splice(f.text, t.start, t.end, ill)})
 	}
 	if len(strs) > 0 {
 		t := pick(strs)
 		cut := t.start + 1 + g.r.Intn(t.end-t.start-1)
-		out = append(out, corruption{"truncate-in-string", append([]byte(nil), f.text[:cut]...)})
+		out = append(out, corruption{op: "truncate-in-string", text: append([]byte(nil), f.text[:cut]...)})
 		t = pick(strs)
 		txt := splice(f.text, t.end-1, t.end, "")
 		if j := bytes.IndexByte(txt[t.end-1:], '"'); j >= 0 {
 			txt = txt[:t.end-1+j]
 		}
-		out = append(out, corruption{"unterminated-string", txt})
+		out = append(out, corruption{op: "unterminated-string", text: txt})
 	}
 	if len(nums) > 0 {
 		t := pick(nums)
@@ -268,11 +307,11 @@ func corruptions(g *gen, f *genFile, k int) []corruption {
 		if t.text[0] == '-' {
 			big = "-" + big
 		}
-		out = append(out, corruption{"oversized", splice(f.text, t.start, t.end, big)})
+		out = append(out, corruption{op: "oversized", text: splice(f.text, t.start, t.end, big)})
 	}
 	// the keyword itself replaced by a character that starts no definition
-	out = append(out, corruption{"illegal-keyword", splice(f.text, d.toks[0].start, d.toks[0].end, "$")})
-	return out
+	out = append(out, corruption{op: "illegal-keyword", text: splice(f.text, d.toks[0].start, d.toks[0].end, "$")})
+	return append(out, firstByteCorruptions(f, k)...)
 }
 
 // ---- arbitrary bytes (C12 totality / determinism)
@@ -412,11 +451,20 @@ func main() {
 		files, maxDefs, nrand := atoi(os.Args[3]), atoi(os.Args[4]), atoi(os.Args[5])
 		emitNums(g, 500)
 		n := 0
+		// the witness of the known finding C12-lookahead-scanner-error-drops-previous-definition first
+		witness := &dbc.MessageDef{Pos: scanner.Position{Line: 1, Column: 1, Offset: 0}, MessageID: 1, Name: "M", Size: 8, Transmitter: "N"}
+		emitCase("c12a", n, []byte("BO_ 1 M: 8 N\n\x00"), " 1 d illegal-first-byte prev=message byte=00 adj=1", []dbc.Def{witness}, true)
+		n++
 		for i := 0; i < files; i++ {
 			f := g.genFile(maxDefs)
 			for k := range f.defs {
+				prev, adj := prevInfo(f, k)
 				for _, c := range corruptions(g, f, k) {
-					extra := fmt.Sprintf(" %d %x %s", k, f.defs[k].toks[0].start, c.op)
+					tag := c.tag
+					if tag == "" {
+						tag = "-"
+					}
+					extra := fmt.Sprintf(" %d %x %s prev=%s byte=%s adj=%d", k, f.defs[k].toks[0].start, c.op, prev, tag, adj)
 					emitCase("c12a", n, c.text, extra, f.expected[:k], true)
 					n++
 				}
